@@ -340,15 +340,18 @@ def plan(prop, tier):
     if prop == "C01":
         n = 90 if q else 5000
         P = [(f, n) for f in ["small-rand", "small-int", "degenerate", "illcond", "thin", "planted-opt", "tiny"]]
+        P.append(("knife", 150 if q else 6000))
         P.append(("medium", 8 if q else 300))
         return P
     if prop == "C02":
         n = 70 if q else 3000
-        return [("planted-inf", 3 * n), ("thin", 2 * n), ("small-rand", n), ("small-int", n), ("degenerate", n), ("tiny", n), ("illcond", n)]
+        return [("planted-inf", 3 * n), ("thin", 2 * n), ("small-rand", n), ("small-int", n), ("degenerate", n), ("tiny", n), ("illcond", n),
+                ("knife", 4 * n)]
     if prop == "C03":
         n = 150 if q else 4000
         P = [(f, n) for f in ["small-rand", "small-int", "degenerate", "illcond", "thin", "planted-opt", "planted-inf"]]
         P.append(("planted-unb", 60 if q else 1500))
+        P.append(("knife", 300 if q else 10000))
         P.append(("tiny", 1000 if q else 30000))
         return P
     raise ValueError(prop)
@@ -356,7 +359,7 @@ def plan(prop, tier):
 
 RULES = {
     "C01": "cases = (LP from seeded families, random configuration: entry point x pricing x scaling x display x precision x iteration limit x warm-start mode); a case is non-trivial when the solve returned rc=0/OPTIMAL (then every clause of the exact optimality certificate is checked on out-parameters and all accessors); distinct = hash(LP data, configuration)",
-    "C02": "cases as C01 weighted to infeasible LPs (planted contradictions with margins down to 2^-200, ranged/equality rows); non-trivial = solve returned INFEASIBLE (Farkas vector checked exactly; truth from certified reference/planting); distinct = hash(LP, configuration)",
+    "C02": "cases as C01 weighted to infeasible LPs (planted contradictions with margins down to 2^-200, ranged/equality rows; `knife` gadgets: infeasible by / feasible by / exactly tight at 2^-20..2^-90 or within the rounding of 2^53-sized data, on bounds, sums and equality chains); non-trivial = solve returned INFEASIBLE (Farkas vector checked exactly; truth from certified reference/planting); distinct = hash(LP, configuration)",
     "C03": "well-formed LPs of moderate bit-size, default limits, QSexact_solver primal or dual; truth from the self-certifying exact reference simplex; non-trivial = truth certified (every such case is compared on rc, status and exact optimal value); distinct = hash(LP, entry)",
 }
 
